@@ -115,6 +115,23 @@ func (rt *runtime) putValue(reference referencer, value Value) {
 	}
 }
 
+// interruptPanic carries the value a function sent on Otto.Interrupt panicked with.
+// It is not a JavaScript exception: try statements let it pass, and the API
+// boundary (catchPanic) panics again with the original value.
+type interruptPanic struct {
+	value interface{}
+}
+
+// callInterrupt runs a function received on Otto.Interrupt on the interpreter's goroutine.
+func (rt *runtime) callInterrupt(fn func()) {
+	defer func() {
+		if caught := recover(); caught != nil {
+			panic(interruptPanic{caught})
+		}
+	}()
+	fn()
+}
+
 func (rt *runtime) tryCatchEvaluate(inner func() Value) (tryValue Value, isException bool) { //nolint:nonamedreturns
 	// resultValue = The value of the block (e.g. the last statement)
 	// throw = Something was thrown
@@ -123,6 +140,10 @@ func (rt *runtime) tryCatchEvaluate(inner func() Value) (tryValue Value, isExcep
 	// Otherwise, some sort of unknown panic happened, we'll just propagate it.
 	defer func() {
 		if caught := recover(); caught != nil {
+			if interrupt, ok := caught.(interruptPanic); ok {
+				// An interrupt cannot be caught by the script
+				panic(interrupt)
+			}
 			if excep, ok := caught.(*exception); ok {
 				caught = excep.eject()
 			}
